@@ -228,7 +228,9 @@ class SymV(_VBase):
             self.claims.append(ClaimRecord(label, "ok"))
         elif r == z3.sat:
             m = c.get_model()
-            self.claims.append(ClaimRecord(label, "fail", c.model_values(m)))
+            rm = self._trig_witness(z3.Not(e))
+            self.claims.append(ClaimRecord(label, "fail", c.model_values(rm if rm is not None else m),
+                                           "witness with exact cos/sin at a special angle" if rm is not None else None))
         else:
             reason = c.reason_unknown()
             m = self._pinned_witness(z3.Not(e))
@@ -236,6 +238,64 @@ class SymV(_VBase):
                 self.claims.append(ClaimRecord(label, "fail", c.model_values(m), "witness found by pinning inputs"))
             else:
                 self.claims.append(ClaimRecord(label, "unknown", None, reason))
+
+    def _trig_witness(self, neg):
+        """cos/sin of symbolic angles are only axiomatised, so a model may give them values the real functions do not
+        take.  Look for a counterexample in which the angle inputs sit at special values (multiples of pi/4, the
+        neighbourhood of 0.05, ...) and every cos/sin symbol is pinned to the true value there.  Search for a witness
+        only: a hit is replayed on the real code like any other model."""
+        import itertools
+        import math as _m
+        import time as _t
+
+        c = self.c
+        entries = [(co, si, a) for (co, si, a) in c.memo.get("trig", {}).values() if not z3.is_rational_value(a)]
+        if not entries:
+            return None
+        inputs = {v.get_id(): v for v in c.inputs.values() if z3.is_real(v)}
+
+        def consts(t, acc):
+            if z3.is_const(t) and t.decl().kind() == z3.Z3_OP_UNINTERPRETED:
+                acc[t.get_id()] = t
+            for ch in t.children():
+                consts(ch, acc)
+            return acc
+
+        usable, avars = [], {}
+        for co, si, a in entries:
+            cs = consts(a, {})
+            if cs and all(i in inputs for i in cs):
+                usable.append((co, si, a))
+                avars.update(cs)
+        if not usable or len(avars) > 3:
+            return None
+        q = _m.pi / 4
+        special = [k * q for k in (0, 2, -2, 4, -4, 6, -6, 8, -8, 1, -1, 3, -3, 5, -5, 7, -7)] + \
+                  [0.05, -0.05, 0.04, -0.04, 0.06, 1e-3, 1.0, -1.0, 2.0, 3.0, 0.3, -0.7]
+        per = {1: len(special), 2: 13, 3: 6}[len(avars)]
+        vs = list(avars.values())
+        saved = (c.timeout_ms, c.fast_ms)
+        c.timeout_ms, c.fast_ms = 2000, 1000
+        t0 = _t.time()
+        try:
+            for combo in itertools.product(special[:per], repeat=len(vs)):
+                if _t.time() - t0 > 25:
+                    break
+                pins = [v == lift(float(x)) for v, x in zip(vs, combo)]
+                sub = [(v, lift(float(x))) for v, x in zip(vs, combo)]
+                encl = []
+                for co, si, a in usable:
+                    av = z3.simplify(z3.substitute(a, *sub))
+                    if not z3.is_rational_value(av):
+                        continue
+                    x = av.numerator_as_long() / av.denominator_as_long()
+                    eps = 1e-13
+                    encl += [co >= lift(_m.cos(x) - eps), co <= lift(_m.cos(x) + eps), si >= lift(_m.sin(x) - eps), si <= lift(_m.sin(x) + eps)]
+                if c.check(neg, *pins, *encl) == z3.sat:
+                    return c.get_model()
+        finally:
+            c.timeout_ms, c.fast_ms = saved
+        return None
 
     def _pinned_witness(self, neg):
         """the solver gave up on `path condition and neg`: look for a witness with the real-valued inputs pinned to
